@@ -237,10 +237,15 @@ func ptrOf(p interface{}) unsafe.Pointer {
 func R[T any](p *T, site int) *T {
 	if s := active.Load(); s != nil && s.hb.On {
 		s.mu.Lock()
+		spin := false
 		if t := s.running; t != nil && t.st == stRunning {
 			s.hb.access(s, t, unsafe.Pointer(p), false, site)
+			spin = s.spinning(t, site)
 		}
 		s.mu.Unlock()
+		if spin {
+			panic(killed{})
+		}
 	}
 	return p
 }
@@ -248,10 +253,31 @@ func R[T any](p *T, site int) *T {
 func W[T any](p *T, site int) *T {
 	if s := active.Load(); s != nil && s.hb.On {
 		s.mu.Lock()
+		spin := false
 		if t := s.running; t != nil && t.st == stRunning {
 			s.hb.access(s, t, unsafe.Pointer(p), true, site)
+			spin = s.spinning(t, site)
 		}
 		s.mu.Unlock()
+		if spin {
+			panic(killed{})
+		}
 	}
 	return p
+}
+
+// spinning counts instrumented accesses since the task last reached a scheduling
+// point; a task that performs millions of them without ever yielding is busy
+// waiting on a plain variable (it would never let the scheduler run anything
+// else). Caller holds s.mu.
+func (s *Sim) spinning(t *Task, site int) bool {
+	t.spin++
+	if t.spin < 3000000 {
+		return false
+	}
+	if !s.abort {
+		s.violations = append(s.violations, Violation{Rule: "livelock", Msg: fmt.Sprintf("task %d (%s) performed %d field accesses without reaching a scheduling point (busy loop on a plain variable?), last at %s", t.ID, t.Name, t.spin, SiteName(site))})
+		s.abort = true
+	}
+	return true
 }
